@@ -3,7 +3,7 @@
 cd /verif
 tier=${1:-quick}
 for i in 01 02 03 04 05 06 07 08 09 10 11 12 13 14 15 16 17 18; do
-  ./check C$i --tier $tier > /tmp/run_C$i.out 2>&1; rc=$?
+  VERIF_NO_EVIDENCE=${VERIF_NO_EVIDENCE:-} ./check C$i --tier $tier > /tmp/run_C$i.out 2>&1; rc=$?
   echo "rc=$rc $(grep -E "^\[C$i\] tier" /tmp/run_C$i.out | tail -1)"
   if [ $rc -ne 0 ]; then grep -E "VIOLATION|signature|harness" /tmp/run_C$i.out | head -6; fi
 done
